@@ -130,6 +130,10 @@ def evaluate(item):
             sub = os.path.join(root, wsrel)
             if os.path.isdir(sub):
                 calls["get_project(subdir)"] = lambda: signac.get_project(sub)
+                deep = os.path.join(root, "extra", "deep", "deeper", "deepest")  # four levels below the legacy root
+                os.makedirs(deep)
+                before = canon.snapshot(root)
+                calls["get_project(deep)"] = lambda: signac.get_project(deep)
 
             def in_cwd(f):
                 def g():
